@@ -375,6 +375,21 @@ func driveStream(e *core.Env, r *core.RNG, srv netio.StreamServer, input []byte,
 		}
 		return "proceeded-forwarder"
 	}
+	if r.Bool() {
+		// relay the way service/tcp.go does: both directions copied with io.Copy, which picks ReadFrom / WriteTo of
+		// whatever connection types the handshake handed back
+		re, te := netsim.Pair(nil, nil, false)
+		go func() {
+			te.Write(reply)
+			te.CloseWrite()
+			io.Copy(io.Discard, te)
+			te.Close()
+		}()
+		netio.BidirectionalCopy(pc, re)
+		pc.Close()
+		re.Close()
+		return "proceeded-relayed"
+	}
 	pc.Write(reply)
 	pc.Close()
 	return "proceeded"
